@@ -48,6 +48,7 @@ func New(next http.Handler, opts ...LBOption) (*RoundRobin, error) {
 	if rr.errHandler == nil {
 		rr.errHandler = utils.DefaultHandler
 	}
+	verifEmit("rr.new", rr)
 	return rr, nil
 }
 
